@@ -199,7 +199,10 @@ def obligations(tier, seed):
             yield Ob('spectra', {'n': 3, 'periods': [0, 1, 2], 'xi': 0.05, 'dt': 0.1, 'pkind': pk, 'mkind': mk},
                      query_ms=120000)
     for mdr in (1, 2, 4, 8):
-        for dt, pl in ((0.01, [0.1, 0.5]), (0.01, [0.0, 0.04, 0.3]), (0.1, [0.5, 2.0]), (0.1, [0.0, 1.2]), (0.01, [1.0, 3.0])):
+        # incl. non-integer dt/(T_min/20): 1.33 (0.15), 2.35 (0.17 at dt 0.02), 1.67 (0.12), 3.6 (0.0555): the sub-step count
+        # must be rounded UP whatever the fractional part
+        for dt, pl in ((0.01, [0.1, 0.5]), (0.01, [0.0, 0.04, 0.3]), (0.1, [0.5, 2.0]), (0.1, [0.0, 1.2]), (0.01, [1.0, 3.0]),
+                       (0.01, [0.15, 0.5]), (0.02, [0.17, 1.0]), (0.01, [0.0, 0.12]), (0.01, [0.0555, 0.2])):
             yield Ob('object_api', {'n': 3 if q else 4, 'periods': pl, 'xi': 0.05, 'dt': dt, 'mdr': mdr}, query_ms=120000,
                      timeout_s=1200)
     for dt, pl in ((0.01, [0.0, 0.1, 1.0]), (0.1, [0.3, 2.0])):
